@@ -85,7 +85,15 @@ func (c *Ctx) N(quick, thorough int) int {
 func (c *Ctx) emit(v map[string]any, flush bool) {
 	b, err := json.Marshal(v)
 	if err != nil {
-		b, _ = json.Marshal(map[string]any{"ev": "error", "msg": "marshal: " + err.Error()})
+		// typically a NaN/Inf inside a witness or sample: keep the record, stringify the payload
+		for _, k := range []string{"witness", "v"} {
+			if x, ok := v[k]; ok {
+				v[k] = fmt.Sprintf("%+v", x)
+			}
+		}
+		if b, err = json.Marshal(v); err != nil {
+			b, _ = json.Marshal(map[string]any{"ev": "error", "msg": "marshal: " + err.Error()})
+		}
 	}
 	c.mu.Lock()
 	c.out.Write(b)
